@@ -1250,6 +1250,179 @@ fn run_db(thorough: bool) -> Report {
     })
 }
 
+// ------------------------------------------------------------------------------------------------ capture files
+/// `analyze_pcap` on a capture FILE that is cut short or whose container fields are corrupt: the four analyzers must
+/// come back (Ok or Err) -- no panic, no endless loop -- and then analyse the intact capture as a fresh analyzer does.
+/// The call runs on its own thread; when it is still running after `limit` the cancel flag the API offers is raised so
+/// that the thread ends, and the run counts as non-terminating.
+fn capture_file_run(bytes: &[u8], intact: &[u8], which: usize, limit: std::time::Duration) -> Result<(String, usize, usize), String> {
+    use std::sync::atomic::{AtomicBool, AtomicU64, Ordering};
+    static N: AtomicU64 = AtomicU64::new(0);
+    let dir = std::env::var("HV_SCRATCH").unwrap_or_else(|_| "/dev/shm".to_string());
+    let id = N.fetch_add(1, Ordering::Relaxed);
+    let p1 = format!("{dir}/hv-{}-cf{id}a.pcap", std::process::id());
+    let p2 = format!("{dir}/hv-{}-cf{id}b.pcap", std::process::id());
+    std::fs::write(&p1, bytes).map_err(|e| format!("machinery: {e}"))?;
+    std::fs::write(&p2, intact).map_err(|e| format!("machinery: {e}"))?;
+    let cancel = Arc::new(AtomicBool::new(false));
+    let c2 = cancel.clone();
+    let (q1, q2) = (p1.clone(), p2.clone());
+    let h = std::thread::spawn(move || {
+        guarded(move || {
+            let d = crate::drv::db_arc();
+            macro_rules! two {
+                ($a:expr) => {{
+                    let mut a = $a;
+                    let (tx, rx) = std::sync::mpsc::channel();
+                    let r1 = a.analyze_pcap(&q1, tx, Some(c2.clone())).is_ok();
+                    let n1 = rx.try_iter().count();
+                    let (tx, rx) = std::sync::mpsc::channel();
+                    let _ = a.analyze_pcap(&q2, tx, Some(c2.clone()));
+                    (format!("{}", if r1 { "ok" } else { "err" }), n1, rx.try_iter().count())
+                }};
+            }
+            match which {
+                0 => two!(huginn_net_tcp::HuginnNetTcp::new(Some(d), 64).expect("analyzer")),
+                1 => two!(huginn_net_http::HuginnNetHttp::new(Some(d), 64).expect("analyzer")),
+                2 => two!(huginn_net_tls::HuginnNetTls::new(64)),
+                _ => two!(huginn_net::HuginnNet::new(Some(crate::drv::db()), 64, None).expect("analyzer")),
+            }
+        })
+    });
+    let t = Instant::now();
+    while !h.is_finished() && t.elapsed() < limit {
+        std::thread::sleep(std::time::Duration::from_micros(200));
+    }
+    let hung = !h.is_finished();
+    if hung {
+        cancel.store(true, Ordering::Relaxed);
+    }
+    let r = h.join();
+    let _ = std::fs::remove_file(&p1);
+    let _ = std::fs::remove_file(&p2);
+    if hung {
+        return Err("does-not-terminate".into());
+    }
+    match r {
+        Ok(Ok(x)) => Ok(x),
+        Ok(Err(p)) => Err(format!("panic: {p}")),
+        Err(_) => Err("panic: thread".into()),
+    }
+}
+fn capture_file_variants(b: &[u8], thorough: bool) -> Vec<(String, Vec<u8>)> {
+    let mut v = vec![];
+    // record boundaries
+    let mut bounds = vec![24usize];
+    let mut i = 24;
+    while i + 16 <= b.len() {
+        let n = u32::from_le_bytes([b[i + 8], b[i + 9], b[i + 10], b[i + 11]]) as usize;
+        i += 16 + n;
+        if i <= b.len() {
+            bounds.push(i);
+        }
+    }
+    let mut cuts: Vec<usize> = if thorough { (0..b.len()).collect() } else { (0..b.len().min(120)).collect() };
+    if !thorough {
+        for w in bounds.windows(2) {
+            for d in [0usize, 1, 7, 8, 15, 16, 17, 30] {
+                cuts.push(w[0] + d);
+            }
+            cuts.push((w[0] + w[1]) / 2);
+            cuts.push(w[1] - 1);
+        }
+    }
+    cuts.sort();
+    cuts.dedup();
+    for c in cuts {
+        if c < b.len() {
+            v.push((format!("cut@{c}"), b[..c].to_vec()));
+        }
+    }
+    // global header bytes
+    for i in 0..24 {
+        for x in QUICK_VALUES {
+            if b[i] != x {
+                let mut m = b.to_vec();
+                m[i] = x;
+                v.push((format!("header-byte{i}={x:#x}"), m));
+            }
+        }
+    }
+    // record header length fields of the first, a middle and the last record
+    let recs = [0usize, bounds.len() / 2, bounds.len().saturating_sub(2)];
+    for &k in &recs {
+        let Some(&o) = bounds.get(k) else { continue };
+        if o + 16 > b.len() {
+            continue;
+        }
+        let n = u32::from_le_bytes([b[o + 8], b[o + 9], b[o + 10], b[o + 11]]);
+        for field in [8usize, 12] {
+            for val in [0u32, 1, n.wrapping_sub(1), n.wrapping_add(1), 65535, 65536, 0x7fff_ffff, 0xffff_ffff, (b.len() - o - 16) as u32, (b.len() - o - 15) as u32] {
+                let mut m = b.to_vec();
+                m[o + field..o + field + 4].copy_from_slice(&val.to_le_bytes());
+                v.push((format!("record{k}-field{field}={val:#x}"), m));
+            }
+        }
+    }
+    v
+}
+fn run_capture_files(thorough: bool) -> Report {
+    let mut items: Vec<(String, Vec<u8>, Arc<Vec<u8>>)> = vec![];
+    for name in ["http-simple-get.pcap", "tls12.pcap", "tls-alpn-h2.pcap", "macos_tcp_flags.pcap"] {
+        let Ok(b) = std::fs::read(format!("/repo/pcap/{name}")) else { continue };
+        let intact = Arc::new(b.clone());
+        for (vn, bytes) in capture_file_variants(&b, thorough) {
+            items.push((format!("{name}/{vn}"), bytes, intact.clone()));
+        }
+    }
+    let mut total = Report::new();
+    if items.len() < 1000 {
+        total.machinery_error(format!("capture-file family has only {} inputs (repository captures missing?)", items.len()));
+    }
+    // what the intact capture yields when it follows itself on one analyzer (the usage pattern of every run below)
+    let mut fresh: std::collections::HashMap<String, Vec<Result<(String, usize, usize), String>>> = std::collections::HashMap::new();
+    for (name, _, intact) in &items {
+        let file = name.split('/').next().unwrap_or("").to_string();
+        fresh.entry(file).or_insert_with(|| (0..4).map(|w| capture_file_run(intact, intact, w, std::time::Duration::from_secs(20))).collect());
+    }
+    let hangs = std::sync::atomic::AtomicUsize::new(0);
+    let limit = std::time::Duration::from_millis(1500);
+    let rep = par_slices(items.len(), 64, |rg| {
+        let mut r = Report::new();
+        for i in rg {
+            let (name, bytes, intact) = &items[i];
+            for which in 0..4usize {
+                // after many non-terminating runs the family is cut short (each costs the full time limit)
+                if hangs.load(std::sync::atomic::Ordering::Relaxed) > 40 {
+                    continue;
+                }
+                r.exec(1);
+                let an = ["tcp", "http", "tls", "unified"][which];
+                let base = fresh[name.split('/').next().unwrap_or("")][which].clone();
+                match (capture_file_run(bytes, intact, which, limit), base) {
+                    (Err(e), _) if e.starts_with("machinery") => r.machinery_error(e),
+                    (Err(e), _) => {
+                        if e == "does-not-terminate" {
+                            hangs.fetch_add(1, std::sync::atomic::Ordering::Relaxed);
+                        }
+                        let key = if e == "does-not-terminate" { format!("C01/capture-file/{an}/does-not-terminate") } else { format!("C01/capture-file/{an}/panic/{}", panic_key(&e)) };
+                        r.dev(key, "capture-file", || json!({"kind": "capture-file", "input": name, "analyzer": an, "detail": e, "file_hex": hex(&bytes[..bytes.len().min(400)]), "file_len": bytes.len()}));
+                    }
+                    (Ok((st, n1, n2)), Ok((_, _, want))) => {
+                        r.outcome(&("capture-file", an, st, n1.min(3)));
+                        if n2 != want {
+                            r.dev(format!("C01/capture-file/{an}/intact-capture-analysed-differently-afterwards"), "poisoned", || json!({"kind": "capture-file", "input": name, "analyzer": an, "results_after": n2, "results_fresh": want}));
+                        }
+                    }
+                    (Ok(_), Err(e)) => r.machinery_error(format!("capture-file: the intact capture does not analyse: {e}")),
+                }
+            }
+        }
+        r
+    });
+    total.merge(rep)
+}
+
 // ------------------------------------------------------------------------------------------------ entry points
 pub fn run(thorough: bool) -> Outcome {
     huginn_net_tcp::uptime::verif_clock::set_global(T0);
@@ -1299,13 +1472,17 @@ pub fn run(thorough: bool) -> Outcome {
     sizes.push(json!({"family": "clock-steps", "inputs": r.evaluations, "wall_s": t.elapsed().as_secs_f64()}));
     total = total.merge(r);
     let t = Instant::now();
+    let r = run_capture_files(thorough);
+    sizes.push(json!({"family": "capture-files", "inputs": r.evaluations, "wall_s": t.elapsed().as_secs_f64()}));
+    total = total.merge(r);
+    let t = Instant::now();
     let r = run_db(thorough);
     sizes.push(json!({"family": "database-text", "inputs": r.evaluations, "wall_s": t.elapsed().as_secs_f64()}));
     total = total.merge(r);
     huginn_net_tcp::uptime::verif_clock::clear_global();
     Outcome {
         report: total,
-        rule: "every input of every family (frames: TCP option space, option pairs, IP header grid, link-layer grid, every truncation / bit flip / header-byte and payload-byte rewrite of every frame of 17 connections and of the 4 repository captures in the context of its connection; streams: all short byte strings, TLS record header grid, every record length, HTTP/2 frame header grid, HPACK blocks, mutations of valid records / frame sequences / heads; clock: timestamped segments of one endpoint with the wall clock stepping backwards / jumping between them; database: every line with deletions, insertions, replacements, numeric overflows, truncations) is fed to the sequential TCP, HTTP, TLS and unified analyzers, the pre-parse filters and dispatch hashes (stream inputs: ClientHello reader, HTTP/2 extractor, one-shot Akamai extractor, request and response parsers; text: database loader); no panic (overflow checks on), no call above 2 s, watchdog for non-termination; after EVERY input a 17-frame probe on the same long-lived instance equals the fresh-instance probe; every slice also through a real 1-worker pool of each kind followed by the probe; distinct = slices x timing bands / loader outcomes".into(),
+        rule: "every input of every family (frames: TCP option space, option pairs, IP header grid, link-layer grid, every truncation / bit flip / header-byte and payload-byte rewrite of every frame of 17 connections and of the 4 repository captures in the context of its connection; streams: all short byte strings, TLS record header grid, every record length, HTTP/2 frame header grid, HPACK blocks, mutations of valid records / frame sequences / heads; capture files: the 4 repository captures cut at every length near every record boundary (thorough: every length), every header byte rewritten, record length fields set to boundary values, through analyze_pcap of the four analyzers followed by the intact capture on the same analyzer (must return, and then analyse the intact capture like a fresh analyzer); clock: timestamped segments of one endpoint with the wall clock stepping backwards / jumping between them; database: every line with deletions, insertions, replacements, numeric overflows, truncations) is fed to the sequential TCP, HTTP, TLS and unified analyzers, the pre-parse filters and dispatch hashes (stream inputs: ClientHello reader, HTTP/2 extractor, one-shot Akamai extractor, request and response parsers; text: database loader); no panic (overflow checks on), no call above 2 s, watchdog for non-termination; after EVERY input a 17-frame probe on the same long-lived instance equals the fresh-instance probe; every slice also through a real 1-worker pool of each kind followed by the probe; distinct = slices x timing bands / loader outcomes".into(),
         exhaustive: true,
         bounds: json!({"families": sizes, "header_byte_values": if thorough { 256 } else { QUICK_VALUES.len() }, "slice_inputs": 4096}),
     }
